@@ -14,6 +14,7 @@ import (
 	"verifharness/internal/enum"
 	"verifharness/internal/lx"
 	"verifharness/internal/model"
+	"verifharness/internal/vclock"
 	"verifharness/internal/vf"
 )
 
@@ -116,8 +117,12 @@ func (rg *c19rig) outcome(res types.MalType, err error, p *lx.Panic) implOutcome
 func (rg *c19rig) evalAST(ast types.MalType) c19result {
 	rg.tracer.Reset()
 	scope := env.NewSubordinateEnv(rg.base)
-	res, err, p := lx.Eval(context.Background(), ast, scope)
-	return c19result{out: rg.outcome(res, err, p), binds: rg.bindsOf(scope)}
+	// fuel: a program that does not terminate (a macro expanding to its own call) is skipped by the caller
+	ctx := vclock.NewPollCtx(20000)
+	res, err, p := lx.Eval(ctx, ast, scope)
+	out := rg.outcome(res, err, p)
+	out.Fuel = ctx.Cancelled()
+	return c19result{out: out, binds: rg.bindsOf(scope)}
 }
 
 func wrapDo(text string) string { return "(do " + text + "\n)" }
@@ -246,6 +251,10 @@ func init() {
 				r.Exec(1)
 				if ref.out.Panic != nil {
 					r.Note("skipped: panics (C04)")
+					return
+				}
+				if ref.out.Fuel {
+					r.Note("skipped: program does not terminate (fuel)")
 					return
 				}
 				if len(ref.out.Trace) > 0 {
